@@ -458,7 +458,7 @@ func TestMC_C05(t *testing.T) {
 	var cfgs []sched.Config
 	for _, c := range raceConfigs() {
 		c := c
-		cfgs = append(cfgs, sched.Config{Property: "C05", Name: c.name, Bounds: bounds, Horizon: 40000, Deadline: seqmc.Deadline(), DelayBounded: true, New: func() sched.Scenario {
+		cfgs = append(cfgs, sched.Config{Property: "C05", Name: c.name, Bounds: bounds, Horizon: 40000, Deadline: seqmc.Deadline(), DelayBounded: true, NoReplayConfirm: true, New: func() sched.Scenario {
 			return &raceW{cfg: c, addr: "unix://" + sockPath(), path: sockPath()}
 		}})
 	}
